@@ -241,8 +241,8 @@ SignalDisciplineS(st) == \A i \in Nodes : st.kill[i] <= st.term[i] /\ st.term[i]
 KillAfterGraceA(st, ev) == (ev.a = "kill" /\ ev.r = "ok") => st.term[ev.n] = 1 /\ st.sw >= scn.gr
 \* after stop() has returned, the process of every node it reports as stopped has gone ...
 NoSurvivorS(st) == st.pres = "ok" => \A i \in Nodes : InRet(st, i) => st.proc[i] \notin AliveP
-\* ... as it is: has gone or has been sent SIGKILL
-NoSurvivorWeakS(st) == st.pres = "ok" => \A i \in Nodes : InRet(st, i) => st.proc[i] \notin (AliveP \ {"killed"})
+\* ... as it is: has gone or has been sent SIGKILL, provided start() had returned its pid
+NoSurvivorWeakS(st) == st.pres = "ok" => \A i \in Nodes : InRet(st, i) /\ st.npid[i] = "own" => st.proc[i] \notin (AliveP \ {"killed"})
 \* a started node that stop() does not report as stopped was reported in the log; a node reported as stopped got SIGTERM; no duplicates
 FailureReportedS(st) ==
     st.pres = "ok" => /\ \A i \in Nodes : IF InRet(st, i) THEN st.term[i] = 1 ELSE st.warn[i]
@@ -251,11 +251,14 @@ FailureReportedS(st) ==
 StopCoversAllS(st) == st.pres # "none" => \A i \in Nodes : st.looked[i]
 \* ... as it is: when it returns normally
 StopCoversAllOkS(st) == st.pres = "ok" => \A i \in Nodes : st.looked[i]
-\* telemetry hooks: pre-start before attach, detach only after attach, each at most once
+\* telemetry hooks: pre-start before attach, detach only after attach, each at most once; detach(running=True) while the process
+\* is there and before it is signalled, detach(running=False) only after it was signalled or found gone
 TelemetryOrderS(st) ==
     \A i \in Nodes : /\ st.pre[i] <= 1 /\ st.att[i] <= st.pre[i]
                      /\ st.detR[i] <= st.att[i] /\ st.detS[i] <= st.att[i] /\ st.sysm[i] <= st.att[i]
                      /\ (st.detR[i] = 1 => st.found[i])
+                     /\ (st.term[i] = 1 => st.detR[i] = 1)
+                     /\ (st.detS[i] = 1 => st.term[i] = 1 \/ st.nsp[i] \/ st.warn[i])
 \* after stop() has returned every started node has been detached (running=False) and its system metrics stored once ...
 TelemetryCompleteS(st) == st.pres = "ok" => \A i \in Nodes : st.detS[i] = 1 /\ st.sysm[i] = 1
 \* ... as it is: detached iff its process was still there when stop() looked it up
